@@ -356,6 +356,22 @@ def gen_container(cls, rng, tier):
                 steps.append("%s 0" % rng.choice(qs))
         steps += ["glen 0", "gorph 0", "gvec 0"]
         cases.append(Case("kL%s%d" % (cls, ci), cls, steps, dict(kind="large-container-history")))
+    # members that only the container owns (created inside it, connected through handles fetched from it): remove must hand
+    # back the member itself with its edges untouched, and leave the remaining members' views unchanged
+    for ci in range(1500 if tier == "thorough" else 200):
+        n = rng.randint(2, 6)
+        ks = rng.sample(range(1, 60), n)
+        steps = [rng.choice(GNEW)] + ["gnn 0 %d %d" % (k, rng.randint(-3, 3)) for k in ks]
+        if rng.random() < 0.3:
+            steps.append("gnn 0 %d 9" % rng.choice(ks))      # refused duplicate
+        for j in range(rng.randint(1, 3 * n)):
+            steps.append("gcon 0 %d %d %d" % (rng.choice(ks), rng.choice(ks), rng.randint(0, 40)))
+        qs = ["glen", "gvec", "gorph", "gdot"] + (["groots", "gleaves"] if cls == "D" else [])
+        steps += ["gsnap 0"] + ["%s 0" % q for q in qs]
+        for j in range(rng.randint(1, 3)):
+            steps.append("grem 0 %d" % (rng.choice(ks) if rng.random() < 0.9 else 77))
+            steps += ["gsnap 0"] + ["%s 0" % q for q in rng.sample(qs, 3)]
+        cases.append(Case("ko%s%d" % (cls, ci), cls, steps, dict(kind="container-owned-members")))
     # twins: several live node objects share a key (rejected duplicates, members replaced after remove while the old
     # object is still linked); connect / try_connect / disconnect / lookups between all of them, then the views
     for ci in range(1500 if tier == "thorough" else 300):
@@ -415,6 +431,19 @@ def oracle_container(case, obs):
             inn[len(nkeys) - 1] = []
         elif op == "gnew":
             graphs.append({})
+        elif op == "gnn":
+            # a member created inside the container (no outside handle)
+            g = graphs[int(t[1])]
+            k = int(t[2])
+            nkeys.append(k)
+            nvals.append(int(t[3]))
+            out[len(nkeys) - 1] = []
+            inn[len(nkeys) - 1] = []
+            want = 0 if k in g else 1
+            if text != "ok %d" % want:
+                return "step %d `%s`: insert returned %s, key present before = %s" % (si, st, text, k in g)
+            if want:
+                g[k] = len(nkeys) - 1
         elif op == "con":
             u, v, e = int(t[1]), int(t[2]), int(t[3])
             out[u].append((v, e))
@@ -482,8 +511,13 @@ def oracle_container(case, obs):
             g = graphs[int(t[1])]
             k = int(t[2])
             want = "some %d" % k if k in g else "none"
-            if text != want:
+            if (text.split(" deg ")[0] if text.startswith("some") else text) != want:
                 return "step %d `%s` -> %s, expected %s" % (si, st, text, want)
+            if k in g and " deg " in text and len(set(nkeys)) == len(nkeys):
+                u = g[k]
+                d = len(out[u]) + len(inn[u])
+                if int(text.split(" deg ")[1]) != d:
+                    return "step %d `%s`: the node handed back by remove has %s edge entries, the member had %d (remove must not touch edges)" % (si, st, text.split(" deg ")[1], d)
             g.pop(k, None)
         elif op == "gget":
             g = graphs[int(t[1])]
@@ -610,6 +644,25 @@ def gen_roundtrip(cls, rng, tier):
         for fmt in ("json", "cbor"):
             steps += ["gser 0 %s" % fmt, "grt 0 %s" % fmt]
         cases.append(Case("rtL%s%d" % (cls, i), cls, steps, dict(kind="large-graph-roundtrip", nodes=n, edges=len(edges))))
+    # hubs: one node with an out-list (and another with an in-list) around multiples of 64 entries, parallel edges and
+    # self-loops included
+    for i in range(40 if tier == "thorough" else 8):
+        n = rng.randint(3, 12)
+        keys = rng.sample(range(1, 1000), n)
+        vals = [rng.randint(-9, 9) for _ in range(n)]
+        deg = rng.choice([63, 64, 65, 66, 127, 128, 129, 130, 200, 257])
+        edges = [(0, rng.randrange(n), 1000 + j) for j in range(deg)]
+        edges += [(rng.randrange(n), 1, 5000 + j) for j in range(rng.choice([64, 65, 129]))]
+        edges += [(rng.randrange(n), rng.randrange(n), 9000 + j) for j in range(10)]
+        rng.shuffle(edges)
+        g = sc.G(cls, keys, vals, edges)
+        steps = g.steps() + ["snap", "gnew"]
+        order = list(range(n))
+        rng.shuffle(order)
+        steps += ["gins 0 %d" % u for u in order]
+        for fmt in ("json", "cbor"):
+            steps += ["gser 0 %s" % fmt, "grt 0 %s" % fmt]
+        cases.append(Case("rtH%s%d" % (cls, i), cls, steps, dict(kind="hub-graph-roundtrip", nodes=n, edges=len(edges))))
     # graphs with a history: parallel edges made from both ends, self-loops, then disconnect / isolate / refused try_connect /
     # reconnect, and only then the round trip (decided against the implementation's own snapshot taken just before)
     for i in range(2000 if tier == "thorough" else 400):
